@@ -428,6 +428,7 @@ impl Bdd {
                 } else {
                     self.max_depth(self.nodes[term.0].hi())
                         .max(self.max_depth(self.nodes[term.0].lo()))
+                        + 1
                 }
             }
         }
